@@ -24,7 +24,7 @@ RULE = (
     "non-trivial = state with at least 3 linked nodes (a route of >=2 hops exists); distinct by history"
 )
 BOUNDS = {
-    "quick": "trees n<=6 (classes) + all labelled trees n<=5; graphs: 4 nodes all edges, 5 nodes <=6 edges, 6 nodes <=6 edges; registry histories depth<=3 over 10 registration operations",
+    "quick": "trees n<=6 (classes) + all labelled trees n<=5; graphs: 4 nodes all edges, 5 nodes <=6 edges, 6 nodes <=6 edges; registry histories depth<=3 over 13 registration operations (incl. two re-registrations of a used name and a local orbital frame on a body-centred parent)",
     "thorough": "trees n<=8 (classes) + all labelled trees n<=6; graphs: 5 nodes <=8 edges, 6 nodes <=7 edges; registry histories depth<=4",
 }
 ASSUMPTIONS = [
@@ -33,7 +33,8 @@ ASSUMPTIONS = [
     "reference = breadth-first search on the explicit undirected edge list",
     "registry part runs with the EOP policy 'pass' (zero corrections): routing does not depend on EOP values",
 ]
-NOT_COVERED = "trees with more than 8 nodes, graphs beyond the stated edge bounds, re-registration under an existing name"
+NOT_COVERED = ("trees with more than 8 nodes, graphs beyond the stated edge bounds; after a name is registered again only the NEW "
+               "definition is checked (objects still expressed in the superseded frame follow the new links by design of the name-keyed registries)")
 
 
 # ---------------------------------------------------------------------------
@@ -380,9 +381,13 @@ def run_graph(n, m, prefix, t):
 # ---------------------------------------------------------------------------
 # registries of the real frames
 
-REG_OPS = ["sta1", "sta2", "staE", "orb0", "orbQ", "orbT", "moon", "sun", "orbM", "orbN"]
-# operations that need an earlier registration (the frame their reference orbit is expressed in)
-REG_NEEDS = {"orbM": "moon", "orbN": "orb0"}
+REG_OPS = ["sta1", "sta2", "staE", "orb0", "orbQ", "orbT", "moon", "sun", "orbM", "orbN", "lofM", "orb0b", "sta1b"]
+# operations that need an earlier registration: the frame their reference orbit is expressed in, or - for the
+# re-registrations orb0b / sta1b - the name they define again with other data (the links of the new definition
+# must then be the ones followed)
+REG_NEEDS = {"orbM": "moon", "orbN": "orb0", "lofM": "moon", "orb0b": "orb0", "sta1b": "sta1"}
+STATIONS = {"Sta1": (43.428889, 1.497778, 178.0), "Sta2": (-35.4, 148.98, 690.0), "StaE": (10.0, -60.0, 50.0),
+            "Sta1@b": (-22.5, 114.1, 35.0)}
 
 
 def _enabled(op, hist):
@@ -432,11 +437,30 @@ def _apply(op):
     from beyond.env import solarsystem
 
     if op == "sta1":
+        _REG["sta_of"]["Sta1"] = STATIONS["Sta1"]
         return create_station("Sta1", (43.428889, 1.497778, 178.0)).name
     if op == "sta2":
+        _REG["sta_of"]["Sta2"] = STATIONS["Sta2"]
         return create_station("Sta2", (-35.4, 148.98, 690.0)).name
     if op == "staE":
+        _REG["sta_of"]["StaE"] = STATIONS["StaE"]
         return create_station("StaE", (10.0, -60.0, 50.0), equatorial=True).name
+    if op == "sta1b":  # the name Sta1 is defined again, elsewhere
+        _REG["sta_of"]["Sta1"] = STATIONS["Sta1@b"]
+        return create_station("Sta1", STATIONS["Sta1@b"]).name
+    if op == "orb0b":  # the name Orb0 is defined again, on another orbit
+        from beyond.orbits import Orbit
+
+        o = Orbit([8200e3, 0.02, 1.3, 2.0, 1.1, 4.0], _REG["date"], "keplerian", "EME2000", "Kepler")
+        _REG["ref_of"]["Orb0"] = o
+        return orbit2frame("Orb0", o, None, exists_warning=False).name
+    if op == "lofM":  # local orbital frame whose parent frame is not named after its orientation (Moon frame, EME2000 axes)
+        from beyond.orbits import Orbit
+        from beyond.frames.frames import get_frame
+
+        o = Orbit([2.5e6, -4.0e5, 6.0e5, 120.0, 1300.0, -500.0], _REG["date"], "cartesian", "Moon", "Kepler")
+        _REG["ref_of"]["LofM"] = o
+        return orbit2frame("LofM", o, "QSW", parent=get_frame("Moon")).name
     if op == "orbM":  # orbit expressed in the (already registered) Moon-centred frame
         from beyond.orbits import Orbit
 
@@ -472,11 +496,14 @@ def check_registry(hist, t):
     R = _reg_world()
     world.restore(R["snap"])
     R["ref_of"] = {}
+    R["sta_of"] = {}
     case = dict(kind="registry", history=list(hist))
     new = []
     for op in hist:
         try:
-            new.append(_apply(op))
+            nm = _apply(op)
+            if nm not in new:
+                new.append(nm)
         except Exception as e:
             t.fail("registry/create-raises/" + op, "registering a frame under a new name succeeds", case, None, repr(e))
             world.restore(R["snap"])
@@ -530,6 +557,23 @@ def check_registry(hist, t):
                        case, 0.0, z.tolist(), f"{a}: reference object at {z[:3]} in its own frame after {hist}")
         except Exception as e:
             t.fail("registry/origin-raises/" + _kind(a), "every pair of connected frames is convertible", case, "conversion", repr(e), a)
+    # a station's origin is the geodetic point of its CURRENT definition (independent ellipsoid formula; a and f read
+    # from the library's constants as data)
+    from mc.ref import geodesy
+    from beyond.constants import Earth as _E
+    from beyond.orbits import StateVector
+
+    for a, (lat, lon, alt) in R["sta_of"].items():
+        try:
+            z = StateVector([0, 0, 0, 0, 0, 0], R["date"], "cartesian", a).copy(frame="ITRF")
+            t.trans()
+            exp = geodesy.geodetic_to_ecef(np.radians(lat), np.radians(lon), alt, _E.r, _E.f)
+            err = float(np.linalg.norm(np.array(z, dtype=float)[:3] - np.asarray(exp)[:3]))
+            if not t.margin("registry station origin [m]", err, 1e-6):
+                t.fail("registry/origin/" + _kind(a), "a station frame is linked at the geodetic point of its definition",
+                       case, list(map(float, exp[:3])), np.array(z, dtype=float)[:3].tolist(), f"{a}: origin {err:.3f} m off after {hist}")
+        except Exception as e:
+            t.fail("registry/origin-raises/" + _kind(a), "every pair of connected frames is convertible", case, "conversion", repr(e), a)
     t.state(("R", tuple(hist)))
     t.ev(("R", tuple(hist)))
     t.outcome(("registry", len(new)))
@@ -539,7 +583,7 @@ def check_registry(hist, t):
 
 
 def _kind(name):
-    return {"Sta1": "station", "Sta2": "station", "StaE": "eq-station", "Orb0": "orbframe", "OrbM": "orbframe-on-body", "OrbN": "orbframe-nested", "OrbQ": "lof", "OrbT": "lof"}.get(name, "body" if name in ("Moon", "Sun") else "builtin")
+    return {"Sta1": "station", "Sta2": "station", "StaE": "eq-station", "Orb0": "orbframe", "OrbM": "orbframe-on-body", "OrbN": "orbframe-nested", "OrbQ": "lof", "OrbT": "lof", "LofM": "lof-on-body"}.get(name, "body" if name in ("Moon", "Sun") else "builtin")
 
 
 def run_registry(prefix, depth, t):
